@@ -108,6 +108,8 @@ def sort_of(t: tuple):
         return DATA[t[1]]["sort"]
     if k in ("set", "bag"):
         return z3.ArraySort(sort_of(t[1]), z3.BoolSort())
+    if k == "arr":
+        return z3.ArraySort(sort_of(t[1]), sort_of(t[2]))
     if k == "seq":
         return z3.SeqSort(sort_of(t[1]))
     if k == "tuple":
@@ -116,6 +118,11 @@ def sort_of(t: tuple):
         return opt_sort(t[1])
     if k == "none":
         return opt_sort(("bool",))  # only ever compared, never stored
+    if k == "obj" and t[1] in OBJ_LAYOUT:
+        return obj_sort(t[1])
+    if k == "dict" and len(t) == 3:
+        # a dict as ONE term (only inside record snapshots / results of pure functions): the pair (domain, value array)
+        return tuple_sort((("set", t[1]), _ArrT(t[1], t[2])))[0]
     raise TypeError(f"type {t} has no SMT sort")
 
 
@@ -208,6 +215,28 @@ def declare_obj(name, fields: dict):
     OBJ_LAYOUT[name] = {f: parse_type(t) for f, t in fields.items()}
 
 
+class _ArrT(tuple):
+    """internal type descriptor ('arr', K, V): the value array of a dict (only as a component of the dict's snapshot sort)"""
+    def __new__(cls, k, v):
+        return tuple.__new__(cls, ("arr", k, v))
+
+
+_obj_sorts = {}
+
+
+def obj_sort(name):
+    """Snapshot sort of a declared mutable record: one-constructor datatype over the sorts of its fields. Used when a record is
+    stored in a collection or returned by a pure function under a binder, i.e. BY VALUE; the engine only does that for temporaries
+    (results of calls) -- storing a record that is still reachable under a name is refused (identity / later mutation would be lost).
+    A field without an SMT sort (dict, closure) makes the whole record unstorable (TypeError -> refused)."""
+    if name not in _obj_sorts:
+        layout = OBJ_LAYOUT[name]
+        dt = z3.Datatype("Rec_" + name)
+        dt.declare("mk_Rec_" + name, *[(f"{name}!{f}", sort_of(t)) for f, t in layout.items()])
+        _obj_sorts[name] = dt.create()
+    return _obj_sorts[name]
+
+
 # ---------------------------------------------------------------- values
 class V:
     __slots__ = ("t", "x")
@@ -270,7 +299,25 @@ def to_term(v: V):
     if k == "opt":
         s = opt_sort(v.t[1])
         isnone, inner = v.x
-        return z3.If(isnone, s.constructor(0)(), s.constructor(1)(to_term(inner)))
+        it = to_term(inner)
+        # the view of a term t as (is-none(t), val(t)) goes back to t itself:  ite(is-none(t), none, some(val(t))) == t
+        if z3.is_app(isnone) and isnone.num_args() == 1 and isnone.decl().eq(s.recognizer(0)) and it.eq(s.accessor(1, 0)(isnone.arg(0))):
+            return isnone.arg(0)
+        return z3.If(isnone, s.constructor(0)(), s.constructor(1)(it))
+    if k == "dict" and len(v.t) == 3 and v.x is not None:
+        s, mk, accs = tuple_sort((("set", v.t[1]), _ArrT(v.t[1], v.t[2])))
+        if z3.is_app(v.x[0]) and v.x[0].num_args() == 1 and v.x[0].decl().eq(accs[0]) and v.x[1].eq(accs[1](v.x[0].arg(0))):
+            return v.x[0].arg(0)
+        return mk(v.x[0], v.x[1])
+    if k == "obj" and v.t[1] in OBJ_LAYOUT and set(v.x) == set(OBJ_LAYOUT[v.t[1]]):
+        s = obj_sort(v.t[1])
+        fts = [to_term(coerce(v.x[f], ft)) for f, ft in OBJ_LAYOUT[v.t[1]].items()]
+        # a record that is (still) the field-wise view of one term t denotes t:  mk(acc_0(t), ..., acc_n(t)) == t
+        if fts and z3.is_app(fts[0]) and fts[0].num_args() == 1 and fts[0].arg(0).sort() == s:
+            t0 = fts[0].arg(0)
+            if all(ft.eq(s.accessor(0, i)(t0)) for i, ft in enumerate(fts)):
+                return t0
+        return s.constructor(0)(*fts)
     raise TypeError(f"no term for {v.t}")
 
 
@@ -284,6 +331,12 @@ def from_term(t, term) -> V:
     if k == "opt":
         s = opt_sort(t[1])
         return V(t, (s.recognizer(0)(term), from_term(t[1], s.accessor(1, 0)(term))))
+    if k == "dict" and len(t) == 3:
+        s, mk, accs = tuple_sort((("set", t[1]), _ArrT(t[1], t[2])))
+        return V(t, (accs[0](term), accs[1](term)))
+    if k == "obj" and t[1] in OBJ_LAYOUT:
+        s = obj_sort(t[1])
+        return V(t, {f: from_term(ft, s.accessor(0, i)(term)) for i, (f, ft) in enumerate(OBJ_LAYOUT[t[1]].items())})
     raise TypeError(f"no value from term for {t}")
 
 
@@ -322,6 +375,8 @@ def coerce(v: V, t) -> V:
         return V(t, (z3.BoolVal(False), coerce(v, t[1])))
     if k in ("bag", "set") and v.t[0] in ("bag", "set") and _compatible(v.t[1], t[1]):
         return V(t, v.x)
+    if k in ("bag", "set", "seq") and v.t[0] == "list" and v.x and t[1][0] == "obj":
+        raise TypeError("concrete list of records viewed as a collection of snapshots (the records may still be reachable under a name)")
     if k in ("bag", "set") and v.t[0] in ("list", "tuple"):   # a concrete tuple (e.g. the empty tuple ()) viewed as the collection of its elements
         arr = z3.K(sort_of(t[1]), z3.BoolVal(False))
         for e in v.x:
